@@ -14,7 +14,7 @@ EXTENDS CountMinLog, DigNum, Json, IOUtils
 VARIABLES tid, l, ok
 tvars == <<vars, tid, l, ok>>
 Traces == JsonDeserialize(IOEnv.TRACE_FILE)
-TSlots == 1..4
+TSlots == 1..(CHOOSE m \in 1..64 : (\A i \in 1..Len(Traces) : Traces[i].NS <= m) /\ (m = 1 \/ \E i \in 1..Len(Traces) : Traces[i].NS = m))   \* as many slots as the largest trace of the batch uses
 TB == 2048
 RelTol(x) == DigShift(x)          \* x / 2^30
 
